@@ -228,28 +228,42 @@ func nStrategies(k *kindSpec) int {
 	}
 }
 
+// statusOf: the workload status alphabets. Index 0 single revision & all ready, 1 several revisions & ready != updated,
+// 2 status absent, then (readiness varied independently of the revision counts) 3 single revision & one pod unready,
+// 4 several revisions & ready == updated; DaemonSet 5 = nothing scheduled. The reference predicate only reads the
+// revision counts (replicas / updatedReplicas, desired / updatedNumberScheduled); readiness must not matter.
 func statusOf(k *kindSpec, s *Shape) interface{} {
 	switch {
 	case k.Class == "Deployment":
-		return M{"replicas": 3, "updatedReplicas": 3, "readyReplicas": 3, "availableReplicas": 3, "observedGeneration": 3}
+		// not read by the handler (ReplicaSets decide), varied all the same
+		return []interface{}{
+			M{"replicas": 3, "updatedReplicas": 3, "readyReplicas": 3, "availableReplicas": 3, "observedGeneration": 3},
+			M{"replicas": 3, "updatedReplicas": 1, "readyReplicas": 3, "availableReplicas": 3, "observedGeneration": 3},
+			nil,
+			M{"replicas": 3, "updatedReplicas": 3, "readyReplicas": 2, "availableReplicas": 2, "unavailableReplicas": 1, "observedGeneration": 3},
+			M{"replicas": 3, "updatedReplicas": 2, "readyReplicas": 2, "availableReplicas": 2, "unavailableReplicas": 1, "observedGeneration": 3},
+		}[s.Status]
 	case k.Class == "CloneSet":
 		return []interface{}{
 			M{"replicas": 3, "updatedReplicas": 3, "readyReplicas": 3, "availableReplicas": 3, "updatedReadyReplicas": 3, "observedGeneration": 3},
 			M{"replicas": 3, "updatedReplicas": 1, "readyReplicas": 3, "availableReplicas": 3, "updatedReadyReplicas": 1, "observedGeneration": 3},
 			nil,
+			M{"replicas": 3, "updatedReplicas": 3, "readyReplicas": 2, "availableReplicas": 2, "updatedReadyReplicas": 2, "observedGeneration": 3},
+			M{"replicas": 3, "updatedReplicas": 2, "readyReplicas": 2, "availableReplicas": 2, "updatedReadyReplicas": 1, "observedGeneration": 3},
 		}[s.Status]
 	case k.Class == "DaemonSet":
-		return []interface{}{
-			M{"currentNumberScheduled": 10, "numberMisscheduled": 0, "desiredNumberScheduled": 10, "numberReady": 10, "updatedNumberScheduled": 10, "observedGeneration": 3, "daemonSetHash": "h"},
-			M{"currentNumberScheduled": 10, "numberMisscheduled": 0, "desiredNumberScheduled": 10, "numberReady": 10, "updatedNumberScheduled": 4, "observedGeneration": 3, "daemonSetHash": "h"},
-			nil,
-			M{"currentNumberScheduled": 0, "numberMisscheduled": 0, "desiredNumberScheduled": 0, "numberReady": 0, "updatedNumberScheduled": 0, "observedGeneration": 3, "daemonSetHash": "h"},
-		}[s.Status]
+		ds := func(desired, updated, ready int) M {
+			return M{"currentNumberScheduled": desired, "numberMisscheduled": 0, "desiredNumberScheduled": desired, "numberReady": ready, "numberAvailable": ready,
+				"numberUnavailable": desired - ready, "updatedNumberScheduled": updated, "observedGeneration": 3, "daemonSetHash": "h"}
+		}
+		return []interface{}{ds(10, 10, 10), ds(10, 4, 10), nil, ds(10, 10, 9), ds(10, 4, 4), ds(0, 0, 0)}[s.Status]
 	default:
 		return []interface{}{
-			M{"replicas": 3, "readyReplicas": 3, "updatedReplicas": 3, "currentRevision": "echoserver-r1", "updateRevision": "echoserver-r1", "observedGeneration": 3},
-			M{"replicas": 3, "readyReplicas": 3, "updatedReplicas": 1, "currentRevision": "echoserver-r1", "updateRevision": "echoserver-r2", "observedGeneration": 3},
+			M{"replicas": 3, "readyReplicas": 3, "availableReplicas": 3, "updatedReplicas": 3, "currentRevision": "echoserver-r1", "updateRevision": "echoserver-r1", "observedGeneration": 3},
+			M{"replicas": 3, "readyReplicas": 3, "availableReplicas": 3, "updatedReplicas": 1, "currentRevision": "echoserver-r1", "updateRevision": "echoserver-r2", "observedGeneration": 3},
 			nil,
+			M{"replicas": 3, "readyReplicas": 2, "availableReplicas": 2, "updatedReplicas": 3, "currentRevision": "echoserver-r1", "updateRevision": "echoserver-r1", "observedGeneration": 3},
+			M{"replicas": 3, "readyReplicas": 2, "availableReplicas": 2, "updatedReplicas": 2, "currentRevision": "echoserver-r1", "updateRevision": "echoserver-r2", "observedGeneration": 3},
 		}[s.Status]
 	}
 }
@@ -1275,11 +1289,9 @@ func shapes(k *kindSpec, group string, th bool, f func(s Shape)) {
 	if k.Class == "DaemonSet" {
 		repls = [][2]int{{-1, -1}}
 	}
-	nStatus := 3
-	if k.Class == "Deployment" {
-		nStatus = 1
-	} else if k.Class == "DaemonSet" && th {
-		nStatus = 4
+	statuses := []int{0, 1, 2, 3, 4}
+	if k.Class == "DaemonSet" && th {
+		statuses = []int{0, 1, 2, 3, 4, 5}
 	}
 	type b2 [2]bool
 	switch group {
@@ -1306,9 +1318,14 @@ func shapes(k *kindSpec, group string, th bool, f func(s Shape)) {
 			for _, st := range strategies {
 				for _, pz := range pauseds {
 					for _, ip := range inprogs {
-						for status := 0; status < nStatus; status++ {
+						for _, status := range statuses {
 							for _, an := range anns {
 								for _, rp := range repls {
+									// the Deployment handler does not read the Deployment status: the quick tier crosses the
+									// non-default statuses with the core of the other fields only
+									if k.Class == "Deployment" && !th && status != 0 && (an != 0 || rp != repls[0] || pz != pauseds[0]) {
+										continue
+									}
 									for _, rid := range rids {
 										for _, t := range tmpls {
 											f(Shape{Tmpl: t, RidOld: rid[0], RidNew: rid[1], ReplOld: rp[0], ReplNew: rp[1], Ann: an, InProgOld: ip[0], InProgNew: ip[1],
